@@ -607,6 +607,11 @@ def check_structure(scope, funcs):
             for p in procs:
                 if fname not in p:
                     return "generic interface %s lists %s, a specific of another name" % (gname, p), None
+                if p not in names["f_spec"]:
+                    # `module procedure p` demands a procedure the module defines; a name that only exists as a bind(C)
+                    # interface body is no module procedure (gfortran: "'p' is not a module procedure")
+                    return "generic interface %s lists %s as a module procedure, but the module defines no procedure of that name%s" % (
+                        gname, p, " (it is only an interface body)" if p in names["f_iface"] else ""), None
             if want_f > 1 and scope not in ("cls", "deep", "tcls", "tclsr", "flat") and gname == fname and len(procs) != want_f:
                 return "generic interface %s lists %d specifics, the C++ name has %d callable signatures" % (gname, len(procs), want_f), None
             if scope == "flat" and want_f1 > 1 and len(procs) != want_f1:
